@@ -797,3 +797,69 @@ package tree
 //@     invariant [a_longest_path_candidate_has_positive_length] curlength >= 0.0 && (len(potentialedges) > 0 ==> curlength > 0.0)
 //@   loop 2
 //@     invariant [scan_position_within_the_path] 0 <= i && i <= len(potentialedges) && (i == 0 ==> len == 0.0)
+
+// ---------------------------------------------------------------------------
+// Split index (properties C04, C09): selection by count, counting
+// ---------------------------------------------------------------------------
+
+//@ func (*hashmap.HashMap).KeyValues
+//@   requires em != nil
+//@   allocates []*hashmap.KeyValue
+//@   assigns nothing
+//@   ensures [entries] forall k int :: {result[k]} 0 <= k && k < len(result) ==> result[k] != nil
+//@   ensures [fresh_storage] fresh_arr(result)
+
+//@ define inwindow(c int, lo int, hi int) bool = (c > lo && c <= hi) || c == hi
+//@ define eiinfo(kv *hashmap.KeyValue) *EdgeIndexInfo = cast(iref(kv.Value), "*EdgeIndexInfo")
+
+// Edges(min,max) returns exactly the entries whose count is in ]min,max] or equal to max
+//@ func (*tree.EdgeIndex).Edges
+//@   flag noframe
+//@   requires em != nil && em.hash != nil
+//@   requires forall kv *hashmap.KeyValue :: {kv.Key} {kv.Value} allocated(kv) ==> itag(kv.Key) == typetag("*Edge") && itag(kv.Value) == typetag("*EdgeIndexInfo") && iref(kv.Value) != 0
+//@   allocates []*hashmap.KeyValue, []*KeyValue, KeyValue
+//@   assigns nothing
+//@   ensures [only_entries_whose_count_is_in_the_window] forall k int :: {result[k]} 0 <= k && k < len(result) ==> result[k] != nil && result[k].val != nil && inwindow(result[k].val.Count, minCount, maxCount)
+//@   loop 1
+//@     invariant [entries] forall k int :: {keyvalues[k]} 0 <= k && k < len(keyvalues) ==> keyvalues[k] != nil
+//@     invariant [separate_storage] arr(bitsets) != arr(keyvalues)
+//@     invariant [only_entries_whose_count_is_in_the_window] forall k int :: {bitsets[k]} 0 <= k && k < len(bitsets) ==> bitsets[k] != nil && bitsets[k].val != nil && inwindow(bitsets[k].val.Count, minCount, maxCount)
+//@     invariant [every_entry_in_the_window_is_selected] forall j int :: {keyvalues[j]} 0 <= j && j <= rangeindex && inwindow(eiinfo(keyvalues[j]).Count, minCount, maxCount) ==> (exists k int :: {bitsets[k]} 0 <= k && k < len(bitsets) && bitsets[k].val == eiinfo(keyvalues[j]))
+
+//@ func (*tree.EdgeIndex).AddEdgeCount
+//@   flag treeop
+//@   requires em != nil && e != nil
+//@   allocates EdgeIndexInfo, hashmap.KeyValue, []hashmap.Bucket, []*hashmap.KeyValue, iface
+//@   assigns hashmap.HashMap.mapArray, hashmap.HashMap.capacity, hashmap.HashMap.total, elems("hashmap.Bucket"), elems("*hashmap.KeyValue"), hashmap.KeyValue.Value, EdgeIndexInfo.Count, EdgeIndexInfo.Len, ghost(lock_Lock), ghost(lock_Unlock), ghost(lock_RLock), ghost(lock_RUnlock)
+
+//@ func tree.StarTreeFromTree
+//@   flag treeop
+//@   requires t != nil
+//@ func (*tree.Tree).AllTipNames
+//@   requires t != nil
+//@   allocates []string, []*Node
+//@   assigns nothing
+//@ func (*tree.Tree).AddBipartition
+//@   flag treeop
+//@   requires t != nil
+
+// ---------------------------------------------------------------------------
+// Consensus (property C09)
+// ---------------------------------------------------------------------------
+
+//@ lemma [integer_count_above_the_truncated_threshold_iff_above_the_threshold] forall k int, x float64 :: x >= 0.0 ==> (k > toint(x) <==> real(k) > x)
+
+//@ func tree.Consensus
+//@   flag noframe
+//@   flag lightcalls
+//@   flag countcalls
+//@   requires trees != nil
+//@   ensures [a_threshold_outside_half_to_one_is_rejected] cutoff < 0.5 || cutoff > 1.0 ==> result0 == nil && result1 != nil
+//@   ensures [a_tree_or_an_error] result1 == nil ==> result0 != nil
+//@   call (*tree.Tree).ReinitIndexes [every_input_tree_is_unrooted_before_its_branches_are_counted] a0 == startree || (a0 == curtree.Tree && ghost(ncalls_UnRoot) - old(ghost(ncalls_UnRoot)) == ghost(ncalls_ReinitIndexes) - old(ghost(ncalls_ReinitIndexes)) + 1)
+//@   call (*tree.Tree).UnRoot [the_tree_being_read_is_unrooted] a0 == curtree.Tree
+//@   call (*tree.EdgeIndex).AddEdgeCount [every_branch_of_every_tree_is_counted_once] a1 == e
+//@   call (*tree.EdgeIndex).Edges [splits_kept_are_those_counted_more_than_cutoff_times_n_or_in_every_tree] a1 == toint(cutoff * real(nbtrees)) && a2 == nbtrees
+//@   call (*tree.Tree).AddBipartition [kept_split_carries_mean_length_and_frequency] a3 == real(bs.val.Len) / real(bs.val.Count) && a4 == real(bs.val.Count) / real(nbtrees)
+//@   loop 1
+//@     invariant [one_unrooting_per_indexing] ghost(ncalls_UnRoot) - old(ghost(ncalls_UnRoot)) == ghost(ncalls_ReinitIndexes) - old(ghost(ncalls_ReinitIndexes))
